@@ -401,6 +401,9 @@ func c35Sig(c c35Case, clause, detail string) string {
 	} else if c35IsV4(c.Client.Hi, c.Client.Lo) {
 		fam = "v4"
 	}
+	if clause == "valid-list-refused" {
+		detail = "build" // the error text is free text, it stays in the description only
+	}
 	return fmt.Sprintf("%s/%s/[%s]/client-%s", clause, detail, strings.Join(fs, ","), fam)
 }
 
@@ -505,7 +508,7 @@ func TestVerif_C35(t *testing.T) {
 			}
 			if clause != "" {
 				report(c35Case{Entries: entries, Client: cl, Real: real}, clause, detail)
-			} else if samples < 6 && cl.Of >= 0 && li%7 == 3 {
+			} else if samples < 6 && cl.Of >= 0 && li%7 == 3 && cl.Pos == []string{"inside", "below", "last", "sibling", "above", "first"}[samples] {
 				samples++
 				rec.Sample(map[string]interface{}{"list": c35Texts(entries), "client": fmt.Sprintf("%x:%x", cl.Hi, cl.Lo), "pos": cl.Pos, "presentations": names, "allowed": results, "reference": want})
 			}
